@@ -562,6 +562,24 @@ fn jobs(tier: &str) -> Vec<Job> {
                     out.push(Job { sc, part: 5, letters: vec![0], depth: 1 });
                 }
             }
+            // (3'') spaces WITHOUT bounds (their resolution comes from a fallback extent, uniform sampling is an
+            // error there, so every sample is a goal sample): the sealed goal stays unreachable
+            if pk != Pk::Prm {
+                let unbounded = match &b.spec {
+                    Spec::Rv { dim, frac, .. } => Some(Spec::Rv { dim: *dim, bounds: None, frac: *frac }),
+                    Spec::Se2 { weight, .. } => Some(Spec::Se2 { weight: *weight, bounds: None }),
+                    Spec::Se3 { weight, .. } => Some(Spec::Se3 { weight: *weight, bounds: None }),
+                    _ => None,
+                };
+                if let Some(spec) = unbounded {
+                    for sm in [0.6, 1.0, 1e6] {
+                        let mut sc = b.scenario(b.world_named("goal-sealed-off", vec![b.seal_goal.clone()]), b.params(pk, sm, 2.5, 1.0), &format!("C06/infeasible/{kit}/unbounded-space/goal-sealed-off/{}x{sm}/bias1", pk.name()));
+                        sc.spec = spec.clone();
+                        sc.alphabet = sc.goal_samples.clone();
+                        out.push(Job { sc, part: 3, letters: (0..b.goal_samples.len() as u8).collect(), depth: if thorough { 6 } else { 4 } });
+                    }
+                }
+            }
             for w in &inf {
                 for sm in [1.0, 1e6] {
                     let roots: Vec<u8> = if pk == Pk::Connect { vec![0, 1] } else { vec![0] };
